@@ -51,9 +51,11 @@ EngineSendOpen(c) ==
   /\ sends' = [sends EXCEPT ![c] = @ + 1]
   /\ UNCHANGED <<pending, feed, answered>>
 
+\* (a cancel may be sent for an order that has meanwhile been resolved: the request still travels,
+\*  the engine's view of an untracked or already-cancelling order does not change)
 EngineSendCancel(c) ==
-  /\ orders[c] \in {"OIF", "Open"} /\ sends[c] < MaxSends
-  /\ orders' = [orders EXCEPT ![c] = IF @ = "OIF" THEN "CIFn" ELSE "CIFo"]
+  /\ sends[c] > 0 /\ sends[c] < MaxSends
+  /\ orders' = [orders EXCEPT ![c] = CASE @ = "OIF" -> "CIFn" [] @ = "Open" -> "CIFo" [] OTHER -> @]
   /\ chan' = Append(chan, Req("cancel", c, Serial(c)))
   /\ sends' = [sends EXCEPT ![c] = @ + 1]
   /\ UNCHANGED <<pending, feed, answered>>
